@@ -262,6 +262,119 @@ def fn_qutip_big(items):
     return {'n': n, 'nt': n, 'viol': viol}
 
 
+# ---------------------------------------------------------------- constructors after an earlier result was edited in place
+def fn_ctor_histories(items):
+    """item = [N, pkg]: construct -> edit the returned object in place -> construct again.  Every constructor result is
+    edited through the public in-place operations (embed for maps, masked / global rotate_by, masked transform_by)
+    and by writing into its gs / ps arrays; after each edit EVERY constructor is called again and must still denote
+    its documented state / map (a module-level constant or cache handed out without a copy shows up here)."""
+    n = nt = 0
+    viol = []
+    for N, pkg in items:
+        py = pkg == 'py'
+        if py:
+            mod, P, CM = lib.pc, lib.P, lib.CM
+        else:
+            m_ = lib.torch_mods()
+            mod, P, CM = m_['tc'], lib.tP, lib.tCM
+            torch = m_['torch']
+        d = 2 ** N
+        ghz = np.zeros((d, d), dtype=complex)
+        ghz[0, 0] = ghz[0, d - 1] = ghz[d - 1, 0] = ghz[d - 1, d - 1] = 0.5
+        gX = [1, 0] + [0, 1] * (N - 1)          # X Z Z ...
+        ctors = {'zero_state': lambda: mod.zero_state(N), 'one_state': lambda: mod.one_state(N),
+                 'maximally_mixed_state': lambda: mod.maximally_mixed_state(N), 'identity_map': lambda: mod.identity_map(N),
+                 'identity_map.to_state': lambda: mod.identity_map(N).to_state()}
+        if N >= 2:
+            ctors['ghz_state'] = lambda: mod.ghz_state(N)
+        if hasattr(mod, 'clifford_rotation_map'):
+            ctors['clifford_rotation_map'] = lambda: mod.clifford_rotation_map(P(gX, 2))
+        want_state = {'zero_state': (basis_proj([0] * N), 0), 'one_state': (basis_proj([1] * N), 0), 'maximally_mixed_state': (np.eye(d) / d, N),
+                      'ghz_state': (ghz, 0), 'identity_map.to_state': (basis_proj([0] * N), 0)}
+        rot_ref = ref.map_perm  # noqa (kept for readers: rotation maps are compared with the first pristine call below)
+
+        def arrays(o):
+            return (lib.t2n(o.gs).copy(), lib.t2n(o.ps).copy() % 4, int(getattr(o, 'r', 0)))
+        pristine = {}
+        for nm, mk in ctors.items():
+            pristine[nm] = arrays(mk())
+
+        def judge(nm, after):
+            o = ctors[nm]()
+            gs, ps, r = arrays(o)
+            if nm in want_state:
+                bad = ref.tableau_invariant(gs, ps, r)
+                ok = (not bad) and r == want_state[nm][1] and np.allclose(ref.rho(gs, ps, r), want_state[nm][0])
+            elif nm == 'identity_map':
+                ok = np.array_equal(gs, np.eye(2 * N, dtype=gs.dtype)) and not ps.any()
+            else:
+                ok = np.array_equal(gs, pristine[nm][0]) and np.array_equal(ps, pristine[nm][1])
+            if not ok:
+                viol.append(V('C12/history/%s/%s/after-%s' % (nm.split('.')[0], pkg, after.split(' ')[0]), [N, pkg],
+                              '%s: %s(%d) built after %s no longer denotes its documented %s (rows %s, phases %s)' % (
+                                  pkg, nm, N, after, 'state' if nm in want_state else 'map', [ref.g_to_str(g) for g in gs], ps.tolist())))
+            return ok
+        t1, s1 = dom.valid_maps(1)[7]
+        mb = np.zeros(N, dtype=bool)
+        mb[N - 1] = True
+        mk_mask = (lambda: mb.copy()) if py else (lambda: torch.tensor(mb.copy()))
+        edits = [('rotate_by', lambda o: o.rotate_by(P(gX, 0))),
+                 ('rotate_by-mask', lambda o: o.rotate_by(P([1, 1], 0), mask=mk_mask())),
+                 ('transform_by-mask', lambda o: o.transform_by(CM(t1, s1), mask=mk_mask())),
+                 ('embed', lambda o: o.embed(CM(t1, s1), mk_mask()) if hasattr(o, 'embed') and not hasattr(o, 'r') else 'skip'),
+                 ('array-write', None)]
+        for src in ctors:
+            for enm, ed in edits:
+                first = ctors[src]()
+                try:
+                    if ed is None:
+                        if py:
+                            first.gs[...] = 1 - first.gs
+                            first.ps[...] = (first.ps + 1) % 4
+                        else:
+                            first.gs.copy_(1 - first.gs)
+                            first.ps.copy_((first.ps + 1) % 4)
+                    elif ed(first) == 'skip':
+                        continue
+                except Exception:
+                    continue          # an operation the object does not offer (the edit itself is judged elsewhere)
+                n += len(ctors)
+                nt += len(ctors)
+                for nm in ctors:
+                    if not judge(nm, '%s of an earlier %s(%d) result' % (enm, src, N)):
+                        break
+    return {'n': n, 'nt': nt, 'viol': viol}
+
+
+def fn_qutip_histories(items):
+    """item = [N, idx]: to_qutip() -> an operation that changes only signs (Pauli gates, the same rotation twice, a
+    second export without any change) -> to_qutip() again on the SAME object: the second export must be the density
+    matrix of the object's current arrays."""
+    n = 0
+    viol = []
+    for N, idx in items:
+        gs0, ps0, r0 = stab.tableaux(N)[idx]
+        G = ref.all_g(N)
+        ops = [('nothing', lambda s_: None)]
+        for q in range(N):
+            for nm in ('X', 'Y', 'Z'):
+                ops.append(('%s(%d)' % (nm, q), (lambda nm=nm, q=q: (lambda s_: getattr(lib.pc, nm)(q).forward(s_)))()))
+        for gi in (1, len(G) // 2 + 1, len(G) - 1):
+            ops.append(('rotate_by(%s) twice' % ref.g_to_str(G[gi]), (lambda gi=gi: (lambda s_: (s_.rotate_by(lib.P(G[gi], 0)), s_.rotate_by(lib.P(G[gi], 0)))))()))
+            ops.append(('rotate_by(%s)' % ref.g_to_str(G[gi]), (lambda gi=gi: (lambda s_: s_.rotate_by(lib.P(G[gi], 2))))()))
+        for nm, op in ops:
+            st = lib.ST(gs0, ps0, r0)
+            st.to_qutip()
+            op(st)
+            m = np.asarray(st.to_qutip().full())
+            n += 1
+            if not np.allclose(m, stab.rho_of(np.asarray(st.gs), np.asarray(st.ps), int(st.r)), atol=1e-12):
+                viol.append(V('C12/to_qutip/history/%s' % ('pure' if r0 == 0 else 'mixed'), [N, idx],
+                              'to_qutip -> %s -> to_qutip on one object: the second export is not the density matrix of the current tableau %s' % (nm, stab.describe(st.gs, st.ps, int(st.r)))))
+                break
+    return {'n': n, 'nt': n, 'viol': viol}
+
+
 def sign_sets(L, full):
     pats = list(itertools.product((0, 2), repeat=L))
     if full or L <= 2:
@@ -378,6 +491,11 @@ def legs(tier):
         stab.tableaux(N)
     out.append(Leg('to_qutip', fn_qutip, [[1, i] for i in range(48)] + [[2, i] for i in range(0, 34560, 1 if tier != 'quick' else 5)], chunk=200,
                    bound='to_qutip of %s tableaux N<=2' % ('all' if tier != 'quick' else 'every 5th of the 34560 + all 48')))
+    out.append(Leg('ctor_histories', fn_ctor_histories, [[N, pkg] for pkg in ('py', 'torch') for N in (1, 2, 3)], chunk=1,
+                   bound='N<=3, both packages: every constructor result edited in place (global / masked rotate_by, masked transform_by, embed, direct array write), then every constructor called again'))
+    reps2 = stab.representatives(2, 0)
+    out.append(Leg('to_qutip_histories', fn_qutip_histories, [[1, i] for i in range(48)] + [[2, i] for i in (reps2 if tier == 'quick' else range(0, 34560, 7))], chunk=8,
+                   bound='export -> sign-only operation (every Pauli gate, a rotation applied twice, nothing) or a rotation -> export again on one object: all N=1 tableaux, %s' % ('one N=2 tableau per density matrix (91)' if tier == 'quick' else 'every 7th N=2 tableau')))
     out.append(Leg('to_qutip_N3plus', fn_qutip_big, [[N, 'mixed', 0] for N in (3, 4, 5)] + [[3, 'bfs', 402 if tier == 'quick' else 4002]], chunk=1, exhaustive=False, supplementary=True,
                    bound='to_qutip of maximally mixed / identity_map(N).to_state(r) / ghz.set_r(r) for every r, N=3..5, and of the N=3 BFS tableau set (every rank)'))
     sitems = []
